@@ -113,10 +113,13 @@ class ForwardMarketSDEFunction(SDEFunction):
             return self._sigma
         else:
             res = self._sigma.copy()
+            # one factor per period [Ti, Ti+1]: 1 before Ti, linearly decreasing to 0 at Ti+1
             g = np.minimum(
-                1, np.maximum(0, self.tenors - t) / (self.tenors[1:] - self.tenors[:-1])
+                1,
+                np.maximum(0, self.tenors[1:] - t)
+                / (self.tenors[1:] - self.tenors[:-1]),
             )
-            res = res * np.diag(g)
+            res = res * g[:, np.newaxis]
             return res
 
     def __call__(self, t: float, x: np.array) -> np.array:
